@@ -531,7 +531,7 @@ def c11_gen(r, tier):
             t = G.leaf(cls, m, *a, **k)
             if all(_json_ok(x) for x in t.get("a", [])):
                 yield {"cond": t}
-    for lit in ({"path": ["a"]}, {"\\path": 1}, {"a": {"path": [1]}}, {"path.length": ["b"]}, {"k": [{"path": [1]}]},
+    for lit in ({"path": ["a"]}, {"Path": ["a"]}, {"PATH.Length": ["b"]}, {"\\Path": 1, "x": 2}, {"\\path": 1}, {"a": {"path": [1]}}, {"path.length": ["b"]}, {"k": [{"path": [1]}]},
                 [{"path": ["a"]}, 2], {"x.path": 1, "y": 2}):
         yield {"cond": G.leaf("Value", "equal_to", lit)}
         yield {"cond": G.leaf("Value", "in_", [lit, 3])}
